@@ -34,6 +34,9 @@ pub struct ResponsePlan {
     /// after the fragments: this many more fragments of this size, produced lazily (a server
     /// that keeps sending); (fragment size, count)
     pub tail: Option<(usize, u64)>,
+    /// the Content-Length header of the response (None: chunked transfer encoding); a lying
+    /// server announces something else than it sends
+    pub content_length: Option<u64>,
 }
 
 impl ResponsePlan {
@@ -46,6 +49,7 @@ impl ResponsePlan {
             end: BodyEnd::Eof,
             end_delay_ns: 0,
             tail: None,
+            content_length: None,
         }
     }
 }
